@@ -130,7 +130,11 @@ func mutationsFor(s *Site) []Mutation {
 	case "pct":
 		return []Mutation{rep("zero", "0"), rep("minus-one", "-1"), rep("101", "101"), rep("abc", "abc"), rep("huge", hugeInt),
 			rep("float", "1.5"), rep("empty", `""`), rep("null", "~"), rep("seq", "[1]")}
-	case "label", "text", "path":
+	case "label":
+		// besides the invalid kinds: the label of another step in the same file (legitimate - several steps may report to one
+		// custom counter - and a no-op variant if the file has only one label)
+		return append(withWrongKinds(rep("empty", `""`)), Mutation{Name: "same-as-another-steps-label", Op: "samelabel"})
+	case "text", "path":
 		return withWrongKinds(rep("empty", `""`))
 	case "freetext":
 		// any string is valid here; only wrong YAML kinds are invalid (null decodes to "")
